@@ -67,7 +67,13 @@ func (e *E) writeOperand(b *strings.Builder) {
 func (e *E) write(b *strings.Builder) {
 	switch e.Op {
 	case "num":
-		b.WriteString(strconv.FormatFloat(e.F, 'f', -1, 64))
+		t := strconv.FormatFloat(e.F, 'f', -1, 64)
+		if e.Abbr && strings.HasPrefix(t, "0.") {
+			t = t[1:] // ".5": the scanner's fraction-only form
+		}
+		b.WriteString(t)
+	case "var":
+		b.WriteString("$" + e.S)
 	case "str":
 		b.WriteString(quote(e.S))
 	case "fn":
@@ -361,8 +367,11 @@ func (g *Gen) Pred(depth int) *E {
 
 func (g *Gen) lit() *E {
 	r := g.R
+	if r.Chance(1, 40) {
+		return &E{Op: "var", S: "v"} // a variable reference: accepted by the parser, no binding exists
+	}
 	if r.Chance(1, 2) {
-		return &E{Op: "num", F: []float64{0, 1, 2, 3, 21, 3.5, 0.5, 10, 100}[r.Intn(9)]}
+		return &E{Op: "num", F: []float64{0, 1, 2, 3, 21, 3.5, 0.5, 10, 100}[r.Intn(9)], Abbr: r.Chance(1, 3)}
 	}
 	return &E{Op: "str", S: r.Pick(Values)}
 }
